@@ -13,7 +13,7 @@ import (
 )
 
 func init() {
-	props["C11"] = &propDef{extraPkgs: []string{jsonPatchPkg}, run: runC11, explanation: "C11 decided statically across the validator and the RFC 6902 library (loaded from source): (X1) K_lib = the operation-map members whose decoded string reaches the pointer argument of the library's findObject (extracted from the library's SSA: today {path, from}); for every member in K_lib and both protected prefixes, every iteration of the validator's per-operation loop crosses the rejecting test strings.HasPrefix(decoded member, prefix) unless the member is absent / null / not a string (cases in which the library substitutes the unusable pointer \"unknown\"); an accepting return inside the loop is a failure (for-all form); (K1) the two prefixes are \"/\"+document.ServiceProperty and \"/\"+document.PublicKeyProperty, the constants through which the composer and accessors address those members; validator and composer decode the patch with the same library function; (G1) in every applier path ApplyPatches(…, op.Delta.Patches) lies behind ValidateDelta(op.Delta) on the same delta, and ValidateDelta validates every patch. Argued, not checked: RFC 6901 escapes cannot spell the protected names; the root pointer cannot be added/replaced in library v4.1.0. (X3) the composer applies a validated ietf-json-patch through the library only (the same fold rule as C10.P1). Validator and composer decode json.Marshal of the patch's own value; 'does not start with the protected prefix' is recognised in every spelling. Patch application reads no package-level state that changes after initialisation (no result cache). The fold rule and the patch accessor rules run inside this check. C10.E1's ietf-json-patch rules and the fold rule's C19.G / C19.H obligations run here. Every operation of the patch's list is inspected."}
+	props["C11"] = &propDef{extraPkgs: []string{jsonPatchPkg}, run: runC11, explanation: "C11 decided statically across the validator and the RFC 6902 library (loaded from source): (X1) K_lib = the operation-map members whose decoded string reaches the pointer argument of the library's findObject (extracted from the library's SSA: today {path, from}); for every member in K_lib and both protected prefixes, every iteration of the validator's per-operation loop crosses the rejecting test strings.HasPrefix(decoded member, prefix) unless the member is absent / null / not a string (cases in which the library substitutes the unusable pointer \"unknown\"); an accepting return inside the loop is a failure (for-all form); (K1) the two prefixes are \"/\"+document.ServiceProperty and \"/\"+document.PublicKeyProperty, the constants through which the composer and accessors address those members; validator and composer decode the patch with the same library function; (G1) in every applier path ApplyPatches(…, op.Delta.Patches) lies behind ValidateDelta(op.Delta) on the same delta, and ValidateDelta validates every patch. Argued, not checked: RFC 6901 escapes cannot spell the protected names; the root pointer cannot be added/replaced in library v4.1.0. (X3) the composer applies a validated ietf-json-patch through the library only (the same fold rule as C10.P1). Validator and composer decode json.Marshal of the patch's own value; 'does not start with the protected prefix' is recognised in every spelling. Patch application reads no package-level state that changes after initialisation (no result cache). The fold rule and the patch accessor rules run inside this check. C10.E1's ietf-json-patch rules and the fold rule's C19.G / C19.H obligations run here. Every operation of the patch's list is inspected. The decoded operation list is not rewritten while it is walked."}
 }
 
 func runC11(c *Ctx) {
